@@ -236,8 +236,11 @@ class Model_cfit_cached(Model_cfit):
                 for i in mcdata
             ]
 
+        def sig(x, c_data):
+            return self.eff(x) * self.cached_amp(x, c_data)
+
         int_sig, g_int_sig = sum_gradient_data2(
-            self.cached_amp,
+            sig,
             self.Amp.trainable_variables,
             mcdata,
             self.cached_data[mc_id],
@@ -251,7 +254,7 @@ class Model_cfit_cached(Model_cfit):
         )
 
         def prob(x, c_data):
-            return (1 - self.w_bkg) * self.eff(x) * self.cached_amp(
+            return (1 - self.w_bkg) * sig(
                 x, c_data
             ) / v_int_sig + self.w_bkg * self.bg(x) / v_int_bg
 
